@@ -288,6 +288,10 @@ def cb_domain(n, small=False):
     out += [[[a, b, s, e]] for a in vals for b in vals for s, e in [(0, n), (0, 1), (1, n), (None, None)]]
   else:
     out += [[[a, b, s, e]] for a in vals for b in vals for s in idxs for e in idxs]
+  # attainability missed or met by a hair (2^-20): an exact comparison is required, a relative tolerance is not good enough
+  eps = F(1, 2 ** 20)
+  out += [[n + eps, n + 1], [n - eps, n + 1], [-n - 1, -n - eps], [-n - 1, -n + eps], [[n + eps, n + 1, 0, n]], [[-n - 1, -n - eps, 0, n]],
+          [[1 + eps, 2, 0, 1]], [[1 - eps, 2, 0, 1]], [eps, 2 * eps], [0, eps], [eps, eps]]
   tup = [[0, 1, 0, 1], [0, 1, 1, n], [-1, 2, 0, n], [0, n + 1, 1, 2], [1, 0, 0, n], [0, 1, 0, n], [0, 2, 2, n], [5, 6, 0, 1]]
   out += [[a, b] for a in tup for b in tup]
   out += [[[0, 1]], [[0, 1, 0]], [[0, 1, 0, 1, 2]], [0, 1, 2], [[0, 1], [0, 1]], [[0, 1, 0, n], 5], [[None, 1, 0, n]], [[0, None, 0, n]],
